@@ -48,7 +48,7 @@ func applyCore() {
 		mn := vx.ParamOr("mintok"+itoa(i), 0)
 		ops[i] = genOp("op"+itoa(i), vx.Param("kmask"+itoa(i)), mn, mx, vx.Param("tokmask"), vx.Param("nvals"))
 	}
-	checkApply(doc, ops)
+	checkApplyOpts(doc, ops, vx.ParamOr("optmask", 0))
 }
 
 // idxCore: array-bearing shapes; the last token of every pointer is a 2- or 3-byte
@@ -90,7 +90,40 @@ func idxCore() {
 	checkApply(doc, []Op{op})
 }
 
-func checkApply(doc *JV, ops []Op) {
+func checkApply(doc *JV, ops []Op) { checkApplyOpts(doc, ops, 0) }
+
+// escapedSize: length of the compact rendering of v with <, >, & spelled as \u00XX when escape is on
+// (plain-ASCII strings and names only: the generators produce nothing else).
+func escapedSize(v *JV, escape bool) int {
+	n := len(render(v))
+	extra := 0
+	var walk func(x *JV)
+	count := func(b []byte) {
+		for _, c := range b {
+			extra += 5 * vx.B2I(vx.Or(vx.Or(c == '<', c == '>'), c == '&'))
+		}
+	}
+	walk = func(x *JV) {
+		if x.K == JStr {
+			count(x.Lit)
+		}
+		for _, k := range x.Keys {
+			count(k)
+		}
+		for _, k := range x.Kids {
+			walk(k)
+		}
+	}
+	walk(v)
+	if escape {
+		return n + extra
+	}
+	return n
+}
+
+// option bits of optmask: 1 AllowMissingPathOnRemove, 2 EnsurePathExistsOnAdd, 4 EscapeHTML, 8 AccumulatedCopySizeLimit symbolic
+// (SupportNegativeIndices is always symbolic). Options not selected keep the library defaults.
+func checkApplyOpts(doc *JV, ops []Op, optmask int) {
 	neg := vx.Bool("negidx")
 	docB := render(doc)
 	patchB := renderPatch(ops)
@@ -99,6 +132,27 @@ func checkApply(doc *JV, ops []Op) {
 
 	o := jsonpatch.NewApplyOptions()
 	o.SupportNegativeIndices = neg
+	ro := RefOpts{NegIdx: neg}
+	escape := true
+	var limit int64
+	if optmask&1 != 0 {
+		o.AllowMissingPathOnRemove = vx.Choose("opt.allowmissing", 2) == 1
+		ro.AllowMissing = o.AllowMissingPathOnRemove
+	}
+	if optmask&2 != 0 {
+		o.EnsurePathExistsOnAdd = vx.Choose("opt.ensure", 2) == 1
+		ro.Ensure = o.EnsurePathExistsOnAdd
+	}
+	if optmask&4 != 0 {
+		escape = vx.Choose("opt.escape", 2) == 1
+		o.EscapeHTML = escape
+	}
+	var sizeOf func(*JV) int
+	if optmask&8 != 0 {
+		limit = vx.Int64("opt.limit")
+		o.AccumulatedCopySizeLimit = limit
+		sizeOf = func(v *JV) int { return escapedSize(v, escape) }
+	}
 	r := runApply(docB, patchB, o)
 	vx.Assert(!r.panicked, "C04/apply-no-panic")
 	if r.panicked {
@@ -109,7 +163,11 @@ func checkApply(doc *JV, ops []Op) {
 	if r.decErr != nil {
 		return
 	}
-	ref := refApply(doc, ops, RefOpts{NegIdx: neg}, 0, nil)
+	ref := refApply(doc, ops, ro, limit, sizeOf)
+	if ro.AllowMissing && (ref.NegOff || ref.NaNOnArray) {
+		vx.Reach("apply/outside-domain")
+		return
+	}
 	if ref.Outside {
 		vx.Reach("apply/outside-domain")
 		return
@@ -118,12 +176,18 @@ func checkApply(doc *JV, ops []Op) {
 		vx.Reach("apply/ref-fails")
 		vx.Assert(r.err != nil, "C01/fails-when-rfc-fails")
 		vx.Assert(r.err != nil, "C08/error-returned")
+		vx.Assert(r.err != nil, "C13/fails-when-reference-fails")
 		if r.err == nil {
 			return
 		}
 		vx.Assert(r.out == nil, "C08/no-document-on-failure")
 		vx.Assert(errIsTest(r.err) == (ref.Err == eTestFailed), "C08/is-test-failed-iff")
-		vx.Assert(!errIsCopy(r.err), "C08/copy-error-only-from-limit")
+		vx.Assert(errIsCopy(r.err) == (ref.Err == eCopyLimit), "C08/copy-error-iff-limit")
+		vx.Assert(errIsCopy(r.err) == (ref.Err == eCopyLimit), "C12/limit-error-iff-total-exceeds")
+		vx.Assert(r.out == nil, "C12/no-document-when-stopped")
+		if ref.Err == eCopyLimit {
+			vx.Reach("apply/copy-limit-hit")
+		}
 		if ref.Err == eMissing {
 			vx.Assert(errIsMissing(r.err), "C08/missing-is-errmissing")
 		}
@@ -132,6 +196,9 @@ func checkApply(doc *JV, ops []Op) {
 	vx.Reach("apply/ref-succeeds")
 	vx.Assert(r.err == nil, "C01/succeeds-when-rfc-succeeds")
 	vx.Assert(r.err == nil, "C08/no-error-when-all-ops-apply")
+	vx.Assert(r.err == nil, "C12/no-error-within-limit")
+	vx.Assert(r.err == nil, "C13/outcome-equals-reference")
+	vx.Assert(r.err == nil, "C14/ensure-add-succeeds")
 	if r.err != nil {
 		return
 	}
@@ -142,9 +209,107 @@ func checkApply(doc *JV, ops []Op) {
 		return
 	}
 	vx.Assert(refEqual(got, ref.Doc), "C01/result-equals-rfc")
+	vx.Assert(refEqual(got, ref.Doc), "C13/result-equals-reference")
+	vx.Assert(refEqualOrdered(got, ref.Doc), "C14/result-equals-reference-ensure")
 	vx.Assert(refEqualOrdered(got, ref.Doc), "C05/order-and-literals")
 	vx.Reach("apply/end")
 }
 
 func H_Apply() { applyCore() }
 func H_Apply_Idx() { idxCore() }
+
+
+// H_AllowMissing_Meta (C13), both sides real code: P with AllowMissingPathOnRemove on must have the outcome of
+// P minus the skipped removes with the option off. The reference evaluator only classifies which removes are skippable.
+func H_AllowMissing_Meta() {
+	K := vx.Param("k")
+	shape := chooseMask("shape", vx.Param("shapemask"), nDocShapes)
+	doc := docShape(shape, "d.")
+	ops := make([]Op, K)
+	nrem := 0
+	for i := range ops {
+		ops[i] = genOp("op"+itoa(i), 63, 0, vx.Param("maxtok"), vx.Param("tokmask"), vx.Param("nvals"))
+		if ops[i].Kind == OpRemove {
+			nrem++
+		}
+	}
+	if nrem == 0 {
+		return
+	}
+	neg := vx.Bool("negidx")
+	ref := refApply(doc, ops, RefOpts{NegIdx: neg, AllowMissing: true}, 0, nil)
+	if ref.Outside || ref.NegOff || ref.NaNOnArray {
+		vx.Reach("meta/outside-domain")
+		return
+	}
+	var kept []Op
+	skipped := 0
+	for i, op := range ops {
+		if ref.Skipped[i] {
+			skipped++
+			continue
+		}
+		kept = append(kept, op)
+	}
+	docB := render(doc)
+	pOn, pOff := renderPatch(ops), renderPatch(kept)
+	vx.Note("doc", docB)
+	vx.Note("patch", pOn)
+	vx.Note("patch-without-skipped", pOff)
+	on := jsonpatch.NewApplyOptions()
+	on.SupportNegativeIndices = neg
+	on.AllowMissingPathOnRemove = true
+	off := jsonpatch.NewApplyOptions()
+	off.SupportNegativeIndices = neg
+	a := runApply(docB, pOn, on)
+	b := runApply(docB, pOff, off)
+	vx.Assert(!a.panicked && !b.panicked, "C04/apply-no-panic")
+	if a.panicked || b.panicked || a.decErr != nil || b.decErr != nil {
+		return
+	}
+	vx.Assert((a.err == nil) == (b.err == nil), "C13/meta-same-success")
+	if (a.err == nil) != (b.err == nil) {
+		return
+	}
+	if a.err != nil {
+		vx.Assert(errIsTest(a.err) == errIsTest(b.err) && errIsMissing(a.err) == errIsMissing(b.err), "C13/meta-same-error-class")
+		vx.Reach("meta/both-fail")
+	} else {
+		vx.Assert(vx.EqBytes(a.out, b.out), "C13/meta-same-document")
+	}
+	if skipped > 0 {
+		vx.Reach("meta/skipped-some")
+	}
+	vx.Reach("meta/end")
+}
+
+// H_Ensure_Same (C14): an add that succeeds without EnsurePathExistsOnAdd gives byte-identical output with it.
+func H_Ensure_Same() {
+	shape := chooseMask("shape", vx.Param("shapemask"), nDocShapes)
+	doc := docShape(shape, "d.")
+	op := genOp("op0", 1, 1, vx.Param("maxtok"), vx.Param("tokmask"), vx.Param("nvals"))
+	neg := vx.Bool("negidx")
+	docB := render(doc)
+	pB := renderPatch([]Op{op})
+	vx.Note("doc", docB)
+	vx.Note("patch", pB)
+	off := jsonpatch.NewApplyOptions()
+	off.SupportNegativeIndices = neg
+	on := jsonpatch.NewApplyOptions()
+	on.SupportNegativeIndices = neg
+	on.EnsurePathExistsOnAdd = true
+	a := runApply(docB, pB, off)
+	if a.panicked || a.decErr != nil || a.err != nil {
+		return
+	}
+	vx.Reach("ensure/plain-add-succeeds")
+	b := runApply(docB, pB, on)
+	vx.Assert(!b.panicked, "C04/apply-no-panic")
+	if b.panicked {
+		return
+	}
+	vx.Assert(b.err == nil, "C14/plain-add-still-succeeds")
+	if b.err == nil {
+		vx.Assert(vx.EqBytes(a.out, b.out), "C14/same-bytes-with-and-without-option")
+	}
+}
